@@ -57,6 +57,8 @@ func main() {
 		{Name: "back-to-back-with-reader", Desc: "same with a reader attaching concurrently",
 			Body: pmlib.BackToBackBody(c0, c1, c2, true), Check: pmlib.CheckBackToBack, QuickBound: 2, ThoroughBound: 3, Horizon: 20000, Bg: bg},
 	}
+	scn = append(scn, &vexplore.Scenario{Name: "back-to-back-flip-flop", Desc: "publisher attached; ReloadPathConfs(c1); ReloadPathConfs(c0) back to back: the second reload restores the running configuration",
+		Body: pmlib.BackToBackBody(c0, c1, c0, false), Check: pmlib.CheckBackToBack, QuickBound: 2, ThoroughBound: 3, Horizon: 20000, Bg: bg})
 	extra := func(r *vcommon.Run) (int64, int64, int64, string) {
 		depth := 3
 		if r.Thorough() {
